@@ -42,12 +42,15 @@ Definition key_first (k : kind) : bool := match k with KPoolMap => false | _ => 
 (* number of element instances inside the embedded end item (`Item endItem`) *)
 Definition sent_count (k : kind) : nat :=
   match k with KArray | KPoolList => 0 | KList | KHashSet => 1 | _ => 2 end.
-Definition fields (k : kind) : nat := (if has_key k then 1 else 0) + (if has_val k then 1 else 0).
+Definition fields (k : kind) : nat := stored_fields k.
 (* element instances alive when no operation is in progress, as a function of the abstract
    state: one per field of every stored item, plus those of the end items *)
 Definition slive_var (v : avar) : nat :=
   match v with Some (k, l) => sent_count k + fields k * length l | None => 0 end.
 Definition slive (s : sstate) : nat := fold_right (fun v n => slive_var v + n) 0 s.
+(* the instances the containers keep for themselves (what an empty container holds) *)
+Definition sbase_var (v : avar) : nat := match v with Some (k, _) => sent_count k | None => 0 end.
+Definition sbase (s : sstate) : nat := fold_right (fun v n => sbase_var v + n) 0 s.
 
 Inductive event :=
 | EDef (i : id)                (* T()            *)
@@ -879,6 +882,20 @@ Definition step (st : state) (o : op) : res (bool * state) :=
   | OSort x =>
       match getv vs x with
       | Some (CN n) => if can_sort (ckind n) then put st x (lift CN (nc_sort n)) else skip st
+      | _ => skip st
+      end
+  | OInsVia x f ka va =>
+      (* prepend(..) {return insert(_begin, ..)...;}  append(..) {return insert(_end, ..)...;} *)
+      match getv vs x with
+      | Some (CN n) =>
+          let k := ckind n in
+          if can_insvia k f then
+            match (if need_key k then marg_key vs ka else Some (RRef 0)),
+                  (if need_val k then marg_val vs va else Some (RRef 0)) with
+            | Some rk, Some rv => put st x (lift CN (nc_ins_args n (via_pos f) rk rv))
+            | _, _ => skip st
+            end
+          else skip st
       | _ => skip st
       end
   end.
